@@ -136,7 +136,8 @@ _OPS = {"OP_INSERT": "insert(key, v) with symbolic value v (weight v&3 in 0..3, 
         "OP_INSERT_LOW": "insert with Hint::Low, symbolic value", "OP_INSERT_DISK": "insert_with_properties(Location::OnDisk), symbolic value",
         "OP_REMOVE": "remove(key)", "OP_GET": "get(key), clone, drop", "OP_CLEAR": "clear()", "OP_EVICT_ALL": "evict_all()",
         "OP_GET_HOLD_INSERT": "get(key) and hold; insert another key (symbolic weight); drop; insert again",
-        "OP_TOUCH_INSERT": "touch(key) (no handle is created); insert the absent key with symbolic weight 1..3"}
+        "OP_TOUCH_INSERT": "touch(key) (no handle is created); insert the absent key with symbolic weight 1..3",
+        "OP_PIN_DROP_KEPT_LAST": "get(16) while its insert handle is alive, drop the lookup handle, drop the insert handle LAST, insert the absent key"}
 _KEYN = {"0": "16 (resident)", "1": "17 (resident, same 64-bit hash as 16)", "2": "32 (absent)"}
 QUICK_RAW = {
     # C05 / C13 core
@@ -144,7 +145,7 @@ QUICK_RAW = {
     "raw_fifo_c2_insdisk_k0_w2", "raw_fifo_c2_insdisk_k2_w1", "raw_fifo_c2_remove_k0", "raw_fifo_c2_clear", "raw_fifo_c2_evictall", "raw_lru_c2_ins_k2_w2", "raw_sieve_c2_ins_k2_w1",
     "raw_lru_c2_clear",
     # C18
-    "raw_fifo_c2_get_k0", "raw_fifo_c2_hold_ins_k2_w1", "raw_lru_c2_hold_ins_k2_w2", "raw_lru_c2_hold_ins_k2_w3", "raw_lru_c2_keep_hold_ins_k2_w2", "raw_lru_c2_touch_ins_k0_w2",
+    "raw_fifo_c2_get_k0", "raw_fifo_c2_hold_ins_k2_w1", "raw_lru_c2_hold_ins_k2_w2", "raw_lru_c2_hold_ins_k2_w3", "raw_lru_c2_keep_hold_ins_k2_w2", "raw_lru_c2_keep_pin_droplast_k0_w2", "raw_lru_c2_touch_ins_k0_w2",
     "raw_lru_c2_holdins_k0_w2", "raw_lru_c2_hold_evictall", "raw_lru_c2_hold_remove_k0",
     # S3-FIFO instantiation
     "raw_s3fifo_c2_ins_k2_w1", "raw_s3fifo_c2_ins_k2_w2", "raw_s3fifo_c2_clear", "raw_s3fifo_c2_hold_ins_k2_w1", "raw_s3fifo_c2_insdisk_k0_w2",
@@ -156,7 +157,7 @@ def _scenario(name, ety, keep, args, key, lit=None):
     cap, pre, npre, hold, pin, obs, op = args[:7]
     props = []
     what = []
-    if op in ("OP_INSERT", "OP_INSERT_LOW", "OP_CLEAR", "OP_REMOVE", "OP_EVICT_ALL", "OP_TOUCH_INSERT"):
+    if op in ("OP_INSERT", "OP_INSERT_LOW", "OP_CLEAR", "OP_REMOVE", "OP_EVICT_ALL", "OP_TOUCH_INSERT", "OP_PIN_DROP_KEPT_LAST"):
         props.append("C05"); what.append("A1 accounting" + ("+A2 eviction bound" if "INSERT" in op else "") + ("+A3" if op == "OP_CLEAR" else ""))
     if op == "OP_INSERT_DISK" or (lit and lit[1] == "true"):
         props += ["C12", "C01", "C05"]; what.append("P1/S1 disk-only advice / filter rejection: not retained in memory, handed over once at last drop")
